@@ -6,3 +6,4 @@ def run(ctx):
     ecdsa.model_check(ctx, ["SignInv"])
     ecdsa.toy_tables(ctx, what=("sign",))
     ecdsa.rfc6979(ctx)
+    ecdsa.big(ctx)
